@@ -897,7 +897,7 @@ def gen_case(rng, kind, idx=None):
             b.tag = 'b%d' % i
         probes, world = build_world_and_probes(rng, blocks, headers, nprobes=8, impl_rate=0.95, prefer_rate=0.6)
         return Case(kind, 'K', '', blocks, probes, world)
-    elif kind == 'twokeys':
+    elif kind in ('twokeys', 'twokeys_mix'):
         # one parameter dispatched on through TWO traits (the same path at two argument lists, two
         # traits with the same last segment at different depths, ..) and the other parameter
         # through a third key; every block binds all three, the bounds of the first parameter are
@@ -913,6 +913,13 @@ def gen_case(rng, kind, idx=None):
         plans = [(('where', 'where', 'where'), False), (('inline', 'inline', 'where'), False), (('inline', 'where', 'inline'), False),
                  (('where', 'where', 'where'), True), (('inline', 'inline', 'inline'), False), (('where', 'inline', 'where'), True)]
         p0 = pk.choice(list(range(len(plans))))
+        if kind == 'twokeys_mix' and idx is not None:
+            # round 10 (seed C02j): the axes advance TOGETHER (7 trait pairs, 3 row sets, 6 plans are
+            # pairwise coprime or nearly so), so that a handful of consecutive indices already has
+            # first blocks whose keys on one parameter are separated by the other parameter's key
+            # (inline, inline, where) as well as adjacent ones; the first block fixes the key order
+            tra, trb = [('Dc<1>', 'Dc<2>'), ('legacy::D', 'D'), ('Dp', 'Dp<u8>'), ('p::q::Dm', 'D2'), ('D', 'legacy::D'), ('x::y::Dn', 'y::x::Dn'), ('D', 'D2')][idx % 7]
+            p0 = [1, 5, 0, 2, 3, 4][idx % 6]
         blocks = []
         for i, (ga, gc, gb) in enumerate(rows):
             slots = mk_slots(rng, used)
